@@ -52,7 +52,11 @@ def gen_around(rng, line, tier):
 def _vsock_gen(rng, tier):
     # the shared connection generators plus the receive-side scenarios of C07 (out-of-order arrivals,
     # duplicates, FIN before data, zero windows)
-    return vsock_common.gen(rng, tier) + c07.gen_own(rng.fork("rxside"), tier)
+    # ... and the teardown scenarios of C17 (FIN of either side in every closing state, out of sequence, with data lost
+    # before it): an ACK number that jumps over data never received shows there (seeded C04-b)
+    from . import c17
+    return vsock_common.gen(rng, tier) + c07.gen_own(rng.fork("rxside"), tier) + \
+        c17.gen_teardown(rng.fork("teardown"), 250 if tier == "quick" else 6000)
 
 
 # ----------------------------------------------------------------------------- known findings
